@@ -297,6 +297,8 @@ def make_numpy(it):
         """np.zeros(len(x)) etc: the length must be the symbolic length of a known space"""
         if isinstance(n, tuple) and len(n) == 1:
             n = n[0]
+        if isinstance(getattr(n, "length_of", None), Cat):
+            return Cat([Arr(part.space, val, part.mask) for part in n.length_of.parts])
         if isinstance(n, SV) and z3.is_const(n.z) and n.z.decl().name().startswith("n@"):
             return Arr(Space.get(n.z.decl().name()[2:]), val, True)
         if isinstance(n, int):
@@ -664,6 +666,16 @@ class Cat:
 
     def sym_unop(self, it, op):
         return Cat([it.unop(op, x) for x in self.parts])
+
+    def sym_len(self, it):
+        tot = None
+        for part in self.parts:
+            n = part.sym_len(it) if hasattr(part, "sym_len") else len(part)
+            tot = n if tot is None else it.binop("+", tot, n)
+        if isinstance(tot, SV):
+            tot = SV(tot.z)
+            tot.length_of = self        # np.zeros(len(cat)) allocates a piecewise array of the same structure
+        return tot if tot is not None else 0
 
     def sym_binop(self, it, op, a, b):
         if isinstance(a, Cat) and isinstance(b, Cat):
